@@ -130,4 +130,81 @@ theorem mem_akeys_iff_alookup (l : List (K × V)) (k : K) :
       simp [akeys, alookup, hk, this] at ih ⊢
       exact ih
 
+theorem not_mem_akeys_alookup (l : List (K × V)) (k : K) (h : k ∉ akeys l) :
+    alookup k l = none := by
+  cases h' : alookup k l with
+  | none => rfl
+  | some v => exact absurd ((mem_akeys_iff_alookup l k).mpr (by simp [h'])) h
+
+theorem nodup_akeys_upsert (l : List (K × V)) (k : K) (v : V) (h : (akeys l).Nodup) :
+    (akeys (upsert l k v)).Nodup := by
+  by_cases hk : k ∈ akeys l
+  · rw [akeys_upsert_of_mem l k v hk]; exact h
+  · rw [akeys_upsert_of_not_mem l k v hk]
+    rw [List.nodup_append]
+    refine ⟨h, by simp, ?_⟩
+    intro a ha b hb
+    simp at hb
+    subst hb
+    intro e
+    subst e
+    exact hk ha
+
+theorem mem_akeys_upsert (l : List (K × V)) (k k' : K) (v : V) :
+    k' ∈ akeys (upsert l k v) ↔ k' = k ∨ k' ∈ akeys l := by
+  rw [mem_akeys_iff_alookup, mem_akeys_iff_alookup, alookup_upsert]
+  by_cases h : k' = k <;> simp [h]
+
+/-- replaying `o` into `l` with `upsert` (the shape of `cacheSession.Commit`) -/
+theorem nodup_akeys_foldl_upsert (o l : List (K × V)) (h : (akeys l).Nodup) :
+    (akeys (o.foldl (fun acc p => upsert acc p.1 p.2) l)).Nodup := by
+  induction o generalizing l with
+  | nil => exact h
+  | cons hd t ih => exact ih _ (nodup_akeys_upsert l hd.1 hd.2 h)
+
+theorem alookup_foldl_upsert (o l : List (K × V)) (hn : (akeys o).Nodup) (k : K) :
+    alookup k (o.foldl (fun acc p => upsert acc p.1 p.2) l) =
+      match alookup k o with
+      | some v => some v
+      | none => alookup k l := by
+  induction o generalizing l with
+  | nil => rfl
+  | cons hd t ih =>
+    obtain ⟨k1, v1⟩ := hd
+    have hn' : k1 ∉ akeys t ∧ (akeys t).Nodup := by
+      simpa [akeys] using hn
+    rw [List.foldl_cons, ih _ hn'.2]
+    by_cases hk : k1 = k
+    · subst hk
+      simp [alookup, not_mem_akeys_alookup t k1 hn'.1]
+    · have hk' : k ≠ k1 := fun e => hk e.symm
+      simp only [alookup, hk, if_false]
+      rw [alookup_upsert_ne l k1 k v1 hk']
+
+theorem akeys_foldl_upsert (o l : List (K × V)) (hn : (akeys o).Nodup) :
+    akeys (o.foldl (fun acc p => upsert acc p.1 p.2) l) =
+      akeys l ++ (akeys o).filter (fun k => decide (k ∉ akeys l)) := by
+  induction o generalizing l with
+  | nil => simp [akeys]
+  | cons hd t ih =>
+    obtain ⟨k1, v1⟩ := hd
+    have hn' : k1 ∉ akeys t ∧ (akeys t).Nodup := by
+      simpa [akeys] using hn
+    rw [List.foldl_cons, ih _ hn'.2]
+    by_cases hk : k1 ∈ akeys l
+    · rw [akeys_upsert_of_mem l k1 v1 hk]
+      have : akeys ((k1, v1) :: t) = k1 :: akeys t := rfl
+      rw [this, List.filter_cons]
+      simp [hk]
+    · rw [akeys_upsert_of_not_mem l k1 v1 hk]
+      have : akeys ((k1, v1) :: t) = k1 :: akeys t := rfl
+      rw [this, List.filter_cons]
+      simp only [hk, not_false_eq_true, decide_true, if_true, List.append_assoc,
+        List.singleton_append]
+      congr 2
+      apply List.filter_congr
+      intro x hx
+      have : x ≠ k1 := fun e => hn'.1 (e ▸ hx)
+      simp [this]
+
 end OLP
